@@ -38,6 +38,7 @@ type SolverStats struct {
 	Errors   int
 	Seconds  float64
 	MaxQuery float64
+	Retried  int // queries re-run through the qfbv tactic after the incremental core gave up
 }
 
 func (s *SolverStats) Add(o SolverStats) {
@@ -46,6 +47,7 @@ func (s *SolverStats) Add(o SolverStats) {
 	s.UnsatN += o.UnsatN
 	s.UnknownN += o.UnknownN
 	s.Errors += o.Errors
+	s.Retried += o.Retried
 	s.Seconds += o.Seconds
 	if o.MaxQuery > s.MaxQuery {
 		s.MaxQuery = o.MaxQuery
@@ -269,25 +271,25 @@ func (s *Solver) checkSat() SatResult {
 		return Unknown
 	}
 	t0 := time.Now()
-	if s.fpSeen && s.Kind != "cvc5" {
-		s.send(fmt.Sprintf("(check-sat-using (try-for qffpbv %d))\n", s.timeoutMS))
+	res, sawErr := Unknown, false
+	if s.Kind == "cvc5" {
+		res, sawErr = s.checkOnce("(check-sat)\n")
+	} else if s.fpSeen {
+		res, sawErr = s.checkOnce(fmt.Sprintf("(check-sat-using (try-for qffpbv %d))\n", s.timeoutMS))
 	} else {
-		s.send("(check-sat)\n")
-	}
-	res := Unknown
-	sawErr := false
-	lines := s.sync()
-	for _, l := range lines {
-		switch {
-		case l == "sat":
-			res = Sat
-		case l == "unsat":
-			res = Unsat
-		case l == "unknown" || strings.HasPrefix(l, "timeout"):
-			res = Unknown
-		case strings.Contains(l, "(error") || strings.Contains(l, "error"):
-			sawErr = true
-			s.LastErr = l
+		// z3's incremental core has no bit-vector preprocessing: a query it cannot finish quickly is
+		// retried once through the qfbv tactic (a fresh, fully preprocessing solver over the same
+		// assertion stack), which typically answers in milliseconds what the core times out on.
+		quick := 2000
+		if s.timeoutMS < quick {
+			quick = s.timeoutMS
+		}
+		s.send(fmt.Sprintf("(set-option :timeout %d)\n", quick))
+		res, sawErr = s.checkOnce("(check-sat)\n")
+		s.send(fmt.Sprintf("(set-option :timeout %d)\n", s.timeoutMS))
+		if res == Unknown && !sawErr {
+			s.Stats.Retried++
+			res, sawErr = s.checkOnce(fmt.Sprintf("(check-sat-using (try-for qfbv %d))\n", s.timeoutMS))
 		}
 	}
 	if sawErr {
@@ -312,6 +314,27 @@ func (s *Solver) checkSat() SatResult {
 		s.Stats.UnknownN++
 	}
 	return res
+}
+
+// checkOnce issues one check command and classifies the answer.
+func (s *Solver) checkOnce(cmd string) (SatResult, bool) {
+	s.send(cmd)
+	res := Unknown
+	sawErr := false
+	for _, l := range s.sync() {
+		switch {
+		case l == "sat":
+			res = Sat
+		case l == "unsat":
+			res = Unsat
+		case l == "unknown" || strings.HasPrefix(l, "timeout"):
+			res = Unknown
+		case strings.Contains(l, "(error") || strings.Contains(l, "error"):
+			sawErr = true
+			s.LastErr = l
+		}
+	}
+	return res, sawErr
 }
 
 // Values reads the model values of the given variables/terms after a Sat answer.
